@@ -283,3 +283,38 @@ func Flush() {
 		os.Remove(path + ".pending")
 	}
 }
+
+// ---- native fuzzing support -------------------------------------------------
+//
+// Go's fuzz workers are separate processes that are killed without notice, so the
+// in-memory statistics above are of no use there. A fuzz target calls FuzzCase:
+// the case is written to $VERIF_FUZZ_DIR/pending-<pid>.json before it runs (a worker
+// that dies leaves it behind), a failure is written to $VERIF_FUZZ_DIR/fail-<hash>.json
+// as an ordinary replay record. run.py reads both; execution counts come from the
+// fuzzing engine's own log.
+func FuzzCase[C any](name string, c C, check func(C) *Failure) *Failure {
+	dir := os.Getenv("VERIF_FUZZ_DIR")
+	raw, err := json.Marshal(c)
+	if err != nil {
+		return nil
+	}
+	var pend string
+	if dir != "" {
+		pend = fmt.Sprintf("%s/pending-%d.json", dir, os.Getpid())
+		b, _ := json.Marshal(failureRec{Check: name, Sig: "crash", Msg: "fuzz worker died while executing this case", Case: raw})
+		os.WriteFile(pend, b, 0o644)
+	}
+	f := check(c)
+	if f != nil && transient(f) {
+		f = nil
+	}
+	if dir != "" {
+		if f != nil {
+			b, _ := json.Marshal(failureRec{Check: name, Sig: f.Sig, Msg: f.Msg, Case: raw})
+			h := sha256.Sum256(raw)
+			os.WriteFile(fmt.Sprintf("%s/fail-%x.json", dir, h[:6]), b, 0o644)
+		}
+		os.Remove(pend)
+	}
+	return f
+}
